@@ -460,7 +460,8 @@ class C10(Profile):
     eval_stats = ('evaluations', 'process_ops', 'payload_nodes_checked')
     level = "fault_enumeration"
     claims = {k: "C10" for k in ("payload_overwritten", "attach_not_rejected", "attach_wrong_exception", "attach_rejected",
-                                 "attach_lost", "reevaluated", "hook_recall", "rows_mismatch", "payload_not_cached", "mutated")}
+                                 "attach_lost", "reevaluated", "hook_recall", "rows_mismatch", "payload_not_cached", "mutated",
+                                 "conform_lost_payload")}
     track_payloads = True
     fault_sites = PROC_SITES
     enumerate_faults = True
